@@ -43,9 +43,9 @@ def run(ctx):
         "with the defaults; harness/e1 TestVerifWallClock, VERIF_WALL_DEFAULT_REFRESH=1)",
         "a deferred publish keeps its delay only while it is held in memory (property statement): a message that "
         "spills to the topic's disk queue loses it (nsqd/topic.go put)",
-        "scan_never_early / inflight_not_before are statements at the granularity of one API call = one step: "
-        "the two critical sections of a processInFlightQueue iteration are not interleaved with a REQ + "
-        "redelivery of the same message (never_early_micro is false: known finding scan-window-requeue)",
+        "never_early_micro_fixed (scan iteration at critical-section granularity, after fix F16): deliveries come "
+        "from the channel's queue and message ids are unique (no other message with the same id is published "
+        "meanwhile); the pre-fix two-section shape is refuted by never_early_micro_false",
         "an empty delay argument on TCP (`REQ id ` / `DPUB topic `) is the empty digit string and reads as 0",
     ]
     ctx.rule = ("numeric: generated spellings (0, 1, boundary±1, max, 2^63±1, 2^64±k, 40 digits, leading zeros, "
@@ -211,7 +211,7 @@ def run_wall(ctx, binp, corr_broken):
             corr_broken.append("scan-loop harness exit %s" % rc3)
         if bad:
             break
-    # known finding scan-window-requeue: replayed, not remembered
+    # fixed finding scan-window-requeue (F16): replayed on every run, must not reproduce
     rc4, out4 = ctx.run_cmd([binp, "-test.run", "^TestVerifScanWindowReplay$", "-test.count=1", "-test.timeout=120s"],
                             timeout=150, env={"VERIF_SEED": ctx.seed, "VERIF_OUT": ctx.work})
     m4 = re.search(r"^SCANWINDOW reproduced=(\w+).*$", out4, re.M)
@@ -219,7 +219,7 @@ def run_wall(ctx, binp, corr_broken):
         ctx.corr["scan_window_replay"] = m4.group(0)[:600]
         if m4.group(1) == "true":
             ctx.violation("scan-window-requeue", m4.group(0)[:600],
-                          open(os.path.join(ROOT, "corpus", "C04", "known", "scan_window_requeue.ops")).read() + m4.group(0) + "\n")
+                          open(os.path.join(ROOT, "corpus", "C04", "fixed", "scan_window_requeue.ops")).read() + m4.group(0) + "\n")
     elif "no tests to run" not in out4:
         ctx.log("TestVerifScanWindowReplay did not complete (rc=%s):\n%s" % (rc4, out4[-1500:]))
         corr_broken.append("scan-window replay exit %s" % rc4)
